@@ -123,7 +123,9 @@ impl Serialize for CanonicalBlock {
         S: Serializer,
     {
         let crc_code = self.crc.to_code();
-        let num_elems = if crc_code == CRC_NO { 5 } else { 6 };
+        // a crc field is only present for crc types with a known representation
+        let crc_bytes = self.crc.bytes();
+        let num_elems = if crc_bytes.is_none() { 5 } else { 6 };
 
         let mut seq = serializer.serialize_seq(Some(num_elems))?;
         seq.serialize_element(&self.block_type)?;
@@ -145,8 +147,8 @@ impl Serialize for CanonicalBlock {
             }
         };
 
-        if self.crc.has_crc() {
-            seq.serialize_element(&serde_bytes::Bytes::new(self.crc.bytes().unwrap()))?;
+        if let Some(crc_bytes) = crc_bytes {
+            seq.serialize_element(&serde_bytes::Bytes::new(crc_bytes))?;
         }
 
         seq.end()
